@@ -516,6 +516,9 @@ class Engine:
         except subprocess.TimeoutExpired as e:
             print("INFRA-ERROR property=%s timeout %s" % (self.pid, e))
             code = 2
+        except Exception as e:  # a bug of the harness itself is never a violation
+            print("INFRA-ERROR property=%s harness error %s: %s\n%s" % (self.pid, type(e).__name__, e, traceback.format_exc()[-1500:]))
+            code = 2
         finally:
             if cov is not None:
                 try:
